@@ -188,7 +188,7 @@ func (f *frame) alloc(x *ssa.Alloc) {
 		f.vals[x] = SV{t: x.Type(), term: ref}
 		key, sort := e.elemHeapKey(u.Elem())
 		cur := e.heapGet(f.curHeap, key, sort)
-		zero := fmt.Sprintf("((as const (Array (_ BitVec 64) %s)) %s)", e.R.sortOf(u.Elem()), e.zeroValue(u.Elem()))
+		zero := e.constArray("(Array (_ BitVec 64) "+e.R.sortOf(u.Elem())+")", e.zeroValue(u.Elem()))
 		e.heapSet(f.curHeap, key, sort, fmt.Sprintf("(store %s %s %s)", cur, ref, zero))
 	default:
 		l := &Loc{kind: locCell, base: ref, elemT: t}
@@ -627,9 +627,19 @@ func (f *frame) typeAssert(x *ssa.TypeAssert) {
 	e := f.enc
 	v := f.scalar(x.X)
 	if _, isIface := x.AssertedType.Underlying().(*types.Interface); isIface {
-		// interface-to-interface: success is not modelled (method sets); havoc ok
+		// interface-to-interface: succeeds iff the dynamic type implements the interface;
+		// decided statically for the dynamic types known to the query, unknown for others
 		okT, _ := e.havoc(f.name(x)+"!ok", types.Typ[types.Bool])
-		ok := and(okT, not(fmt.Sprintf("(= %s I_nil)", v)))
+		iface := x.AssertedType.Underlying().(*types.Interface)
+		var yes []string
+		for _, m := range e.R.ifaceOrder {
+			dt := e.R.ifaceTypes[m]
+			if types.Implements(dt, iface) {
+				yes = append(yes, fmt.Sprintf("((_ is I_%s) %s)", m, v))
+			}
+		}
+		yes = append(yes, and(fmt.Sprintf("((_ is I_other) %s)", v), okT))
+		ok := or(yes...)
 		if x.CommaOk {
 			val := ite(ok, v, "I_nil")
 			f.vals[x] = SV{t: x.Type(), tuple: []SV{{t: x.AssertedType, term: e.define(f.name(x)+"!v", "Iface", val)},
@@ -861,7 +871,7 @@ func (f *frame) makeSlice(x *ssa.MakeSlice) {
 	el := x.Type().Underlying().(*types.Slice).Elem()
 	key, sort := e.elemHeapKey(el)
 	cur := e.heapGet(f.curHeap, key, sort)
-	zero := fmt.Sprintf("((as const (Array (_ BitVec 64) %s)) %s)", e.R.sortOf(el), e.zeroValue(el))
+	zero := e.constArray("(Array (_ BitVec 64) "+e.R.sortOf(el)+")", e.zeroValue(el))
 	e.heapSet(f.curHeap, key, sort, fmt.Sprintf("(store %s %s %s)", cur, ref, zero))
 }
 
